@@ -1,7 +1,7 @@
 (* Properties_C12.v — linear solvers, inverses and factorisations. *)
 From Coq Require Import Floats.
 From mathcomp Require Import all_ssreflect all_algebra.
-From LS Require Import NumOps RcfOps F64Ops Kernels Algebra GJ Det DetLink.
+From LS Require Import NumOps RcfOps F64Ops Kernels Algebra GJ Det DetLink Lse LseSpec.
 Set Implicit Arguments. Unset Strict Implicit. Unset Printing Implicit Defensive.
 Import Order.TTheory GRing.Theory Num.Theory.
 Local Open Scope ring_scope.
@@ -22,6 +22,27 @@ Proof. exact: mdetE. Qed.
 Theorem C12_executable_determinant (R : rcfType) n (M : seq (seq R)) : Det.wf n.+1 n.+1 M ->
   Algebra.mdet (ops := RcfOps R) M = \det (Det.mx_of n.+1 n.+1 M).
 Proof. exact: exec_mdetE. Qed.
+(* SolveLSE, the EXECUTABLE model (pre-pass, elimination with partial pivoting, back substitution into the
+   caller's vector), over any real closed field and every size n:
+   - the pre-pass and the elimination keep the solution set of [A | b], whatever the matrix;
+   - the eliminated coefficient part is upper triangular, whatever the matrix;
+   - when no pivot of the eliminated system is zero, what is returned solves A x = b, and it does not depend on
+     what the solution vector held before the call *)
+Theorem C12_solve_lse_keeps_the_solution_set (R : rcfType) n (M : seq (seq R)) x : wfa n M ->
+  msat n (lse_eliminate (lse_pre M)) x <-> msat n M x.
+Proof.
+move=> wM; have [wP eP] := lse_pre_ok x wM; have [_ eE] := lse_eliminate_ok x wP.
+by rewrite eE eP.
+Qed.
+Theorem C12_solve_lse_triangular (R : rcfType) n (M : seq (seq R)) : wfa n M ->
+  tri_upto n (lse_eliminate (lse_pre M)) n.
+Proof. by move=> wM; have [wP _] := lse_pre_ok [::] wM; exact: lse_eliminate_tri. Qed.
+Theorem C12_solve_lse_solves (R : rcfType) n (M : seq (seq R)) (s0 : seq R) : wfa n M ->
+  (forall i, (i < n)%N -> mget (lse_eliminate (lse_pre M)) i i != 0) -> msat n M (solve_lse M s0).
+Proof. exact: solve_lse_correct. Qed.
+Theorem C12_solve_lse_ignores_previous_contents (R : rcfType) n (M : seq (seq R)) (s0 s1 : seq R) : wfa n M ->
+  (forall i, (i < n)%N -> mget (lse_eliminate (lse_pre M)) i i != 0) -> solve_lse M s0 = solve_lse M s1.
+Proof. exact: solve_lse_independent_of_previous_contents. Qed.
 Theorem C12_det_multiplicative (R : comRingType) n (A B : 'M[R]_n) : \det (A *m B) = \det A * \det B.
 Proof. exact: det_mulmx. Qed.
 
@@ -36,5 +57,8 @@ Proof. by vm_compute. Qed.
 
 Print Assumptions C12_gauss_jordan_sound.
 Print Assumptions C12_det_laplace.
+Print Assumptions C12_solve_lse_keeps_the_solution_set.
+Print Assumptions C12_solve_lse_solves.
+Print Assumptions C12_solve_lse_ignores_previous_contents.
 Print Assumptions C12_det_multiplicative.
 Print Assumptions C12_executable_determinant.
